@@ -11,6 +11,7 @@ import (
 	"errors"
 	"fmt"
 	"runtime"
+	"sync/atomic"
 	"strconv"
 	"strings"
 	"time"
@@ -24,22 +25,67 @@ func init() {
 
 // faultWriter fails from its k-th Write on and optionally yields to stir the scheduler.
 type faultWriter struct {
-	buf    bytes.Buffer
-	n, k   int
-	yield  bool
-	failed bool
+	buf      bytes.Buffer
+	n, k     int
+	yield    bool
+	slow     bool
+	failed   bool
+	err      error       // what a failing write returns (default: a private error)
+	returned atomic.Bool // set as soon as Encode has returned
+	late     atomic.Int32
 }
 
 func (w *faultWriter) Write(p []byte) (int, error) {
+	if w.returned.Load() {
+		// activity on the caller's output after the call has returned
+		w.late.Add(1)
+	}
 	if w.yield {
 		runtime.Gosched()
 	}
+	if w.slow {
+		time.Sleep(100 * time.Microsecond)
+	}
 	if w.k >= 0 && w.n >= w.k {
 		w.failed = true
+		if w.err != nil {
+			return 0, w.err
+		}
 		return 0, errors.New("injected write failure")
 	}
 	w.n++
 	return w.buf.Write(p)
+}
+
+// a document whose last element cannot be marshalled: the xml encoder fails on its own after
+// everything before it has been produced
+type failingTail struct{}
+
+func (failingTail) MarshalXML(*xml.Encoder, xml.StartElement) error {
+	return errors.New("cannot marshal this element")
+}
+
+type failingDoc struct {
+	XMLName xml.Name       `xml:"LapTimerDB"`
+	Name    string         `xml:"name"`
+	Laps    []laptimer.Lap `xml:"lap"`
+	Tail    failingTail    `xml:"tail"`
+}
+
+func ltWriteErr(kind string) error {
+	switch kind {
+	case "closedpipe":
+		return io.ErrClosedPipe
+	case "eof":
+		return io.EOF
+	case "ueof":
+		return io.ErrUnexpectedEOF
+	case "closed":
+		return os.ErrClosed
+	case "short":
+		return io.ErrShortWrite
+	}
+	return nil
 }
 
 func ltDB(laps, pad int) *laptimer.DB {
@@ -60,6 +106,10 @@ func ltRun(toks []string) string {
 	gz := cvField(toks, "gz") == "1"
 	procs, _ := strconv.Atoi(cvField(toks, "procs"))
 	yield := cvField(toks, "yield") == "1"
+	mf := cvField(toks, "mf") == "1"
+	// a slow output only for documents of at most ~1300 writes (the watchdog is about hangs, not speed)
+	slow := cvField(toks, "slow") == "1" && laps <= 60
+	werr := ltWriteErr(cvField(toks, "ek"))
 	if procs > 0 {
 		defer runtime.GOMAXPROCS(runtime.GOMAXPROCS(procs))
 	}
@@ -67,33 +117,47 @@ func ltRun(toks []string) string {
 	if gz {
 		opts = append(opts, laptimer.Compress())
 	}
-	db := ltDB(laps, pad)
+	var db any = ltDB(laps, pad)
+	if mf {
+		fd := &failingDoc{Name: "x"}
+		for _, l := range ltDB(laps, pad).Laps {
+			l.Note = "" // no line feeds inside values: output lines = pipe lines
+			fd.Laps = append(fd.Laps, l)
+		}
+		db = fd
+	}
 
-	// fault-free reference run
+	// fault-free reference run (with an unmarshallable document it fails, on a working output)
 	ref := &faultWriter{k: -1}
 	enc, _ := laptimer.NewEncoder(ref, opts...)
-	if err := enc.Encode(db); err != nil {
-		return "bad reference run: " + err.Error()
+	if err := enc.Encode(db); (err != nil) != mf {
+		return fmt.Sprintf("bad reference run: %v", err)
 	}
 	full := ref.buf.Bytes()
 	lines := 0
 	if !gz {
-		// what the pipe carries: the indented document before the filter's replacements
-		piped, _ := xml.MarshalIndent(db, "", "\t")
-		lines = bytes.Count(piped, []byte("\n"))
+		if mf {
+			lines = bytes.Count(full[len(xml.Header):], []byte("\n"))
+		} else {
+			// what the pipe carries: the indented document before the filter's replacements
+			piped, _ := xml.MarshalIndent(db, "", "\t")
+			lines = bytes.Count(piped, []byte("\n"))
+		}
 	}
 
 	before := runtime.NumGoroutine()
-	fw := &faultWriter{k: k, yield: yield}
+	fw := &faultWriter{k: k, yield: yield, slow: slow, err: werr}
 	done := make(chan error, 1)
 	go func() {
 		e, _ := laptimer.NewEncoder(fw, opts...)
-		done <- e.Encode(db)
+		err := e.Encode(db)
+		fw.returned.Store(true)
+		done <- err
 	}()
 	var err error
 	select {
 	case err = <-done:
-	case <-time.After(5 * time.Second):
+	case <-time.After(20 * time.Second):
 		return "hang"
 	}
 	// no background activity once Encode has returned: let finished goroutines settle
@@ -117,6 +181,7 @@ func ltRun(toks []string) string {
 	if bytes.HasPrefix(full, got) {
 		same = "1"
 	}
+	late := fw.late.Load()
 	// with compression, "complete" means a finished gzip stream of exactly the plain document
 	complete := "na"
 	if gz && err == nil {
@@ -131,7 +196,7 @@ func ltRun(toks []string) string {
 			}
 		}
 	}
-	return fmt.Sprintf("ret=%s W=%d lines=%d total=%d delivered=%d same=%s leaked=%d complete=%s", ret, ref.n, lines, len(full), len(got), same, leaked, complete)
+	return fmt.Sprintf("ret=%s W=%d lines=%d total=%d delivered=%d same=%s leaked=%d complete=%s late=%d", ret, ref.n, lines, len(full), len(got), same, leaked, complete, late)
 }
 
 func execLT(_ *config, op string) string {
@@ -257,7 +322,14 @@ func genLT(cfg *config, r *rng, i int, s *sink) string {
 	}
 	s.count("lt.laps." + bucket(laps))
 	s.count("lt.gz." + b01(gz))
-	return fmt.Sprintf("run laps=%d pad=%d k=%s gz=%s procs=%d yield=%s", laps, pad, k, b01(gz), pick(r, []int{1, 2, 4, 16}), b01(r.bool()))
+	// the document itself may be unmarshallable; the output may be slow (so that anything still
+	// running after the return shows) and may fail with an error value the code knows
+	mf := r.chance(1, 4)
+	slow := r.chance(1, 3)
+	ek := pick(r, []string{"inj", "inj", "closedpipe", "eof", "ueof", "closed", "short"})
+	s.count("lt.mf." + b01(mf))
+	s.count("lt.ek." + ek)
+	return fmt.Sprintf("run laps=%d pad=%d k=%s gz=%s procs=%d yield=%s mf=%s slow=%s ek=%s", laps, pad, k, b01(gz), pick(r, []int{1, 2, 4, 16}), b01(r.bool()), b01(mf), b01(slow), ek)
 }
 
 func corpusLT(cfg *config) []string {
@@ -298,5 +370,18 @@ func corpusLT(cfg *config) []string {
 		ops = append(ops, fmt.Sprintf("run laps=40 pad=3000 k=%d gz=1 procs=4 yield=0", k))
 	}
 	ops = append(ops, "run laps=400 pad=40 k=3 gz=0 procs=1 yield=0")
+	// documents that cannot be marshalled to the end, on a slow working output and on failing ones
+	for _, laps := range []int{0, 40, 60} {
+		ops = append(ops, fmt.Sprintf("run laps=%d pad=10 k=- gz=0 procs=2 yield=0 mf=1 slow=1 ek=inj", laps))
+		ops = append(ops, fmt.Sprintf("run laps=%d pad=10 k=- gz=1 procs=2 yield=0 mf=1 slow=1 ek=inj", laps))
+		ops = append(ops, fmt.Sprintf("run laps=%d pad=10 k=2 gz=0 procs=2 yield=1 mf=1 slow=0 ek=inj", laps))
+	}
+	// the last writes failing with error values a pipe-based implementation might mistake for
+	// its own shutdown
+	for _, ek := range []string{"closedpipe", "eof", "ueof", "closed"} {
+		for k := 40; k <= 48; k++ {
+			ops = append(ops, fmt.Sprintf("run laps=3 pad=3000 k=%d gz=0 procs=2 yield=0 mf=0 slow=0 ek=%s", k, ek))
+		}
+	}
 	return ops
 }
